@@ -101,8 +101,17 @@ def sendForm? : String → Option Form
   | "send_batch_mut" => some .sendBatchMut | "try_send_batch_mut" => some .trySendBatchMut
   | _ => none
 
+/-- `recv_timeout h` — the timed receive with a real timeout (harness README "Timed parking") — is a blocking receive
+that may ALSO return Timeout at any point while it has not received. In the history model that is exactly the
+behaviour of form `recvTimeout0` placed anywhere inside the call's interval: the search may leave the operation in its
+`fresh` state (rendezvous: registered, `rvTo 1`) for as long as it likes; its step then either takes what is there
+(`ok`), reports the last sender gone (`disconnected`), or — only on an empty channel — reports `timeout` without
+consuming anything (rendezvous: through the cancel steps `rvTo 1 → 2`, finding F1). A timed receive always returns
+(the scheduler fires its timeout when nothing else can run), so it never is a deadlock participant and the quiescence
+rule never sees it. Both spellings therefore parse to the same form. -/
 def recvForm? : String → Option Form
   | "recv" => some .recv | "try_recv" => some .tryRecv | "recv_timeout0" => some .recvTimeout0
+  | "recv_timeout" => some .recvTimeout0
   | "recv_batch" => some .recvBatch | "try_recv_batch" => some .tryRecvBatch
   | "recv_batch_mut" => some .recvBatchMut | "try_recv_batch_mut" => some .tryRecvBatchMut
   | _ => none
